@@ -20,11 +20,20 @@ def _submits(f) -> List[ast.Call]:
     return [c for c in walk_no_nested(f.node) if isinstance(c, ast.Call) and isinstance(c.func, ast.Attribute) and c.func.attr == "submit"]
 
 
+_FN = {}
+
+
 def _sub_args(c: ast.Call) -> List[ast.AST]:
     out = []
     for a in c.args:
         if isinstance(a, ast.Starred) and isinstance(a.value, (ast.Tuple, ast.List)):
             out += list(a.value.elts)
+        elif isinstance(a, ast.Starred) and isinstance(a.value, ast.Name) and _FN.get("node") is not None:
+            d = assigned_value(_FN["node"], a.value.id)
+            if len(d) == 1 and isinstance(d[0], (ast.Tuple, ast.List)):
+                out += list(d[0].elts)          # *args_tuple defined elsewhere: its elements are evaluated THERE
+            else:
+                out.append(a)
         else:
             out.append(a)
     return out
@@ -45,6 +54,7 @@ def run(ctx: Ctx):
     f = ctx.fn(CG, "R-C05-1")
     sn = f.self_name
     cfg = CFG(f.node)
+    _FN["node"] = f.node
     subs = _submits(f)
     ctx.require(len(subs) >= 2, "R-C05-1", f"{len(subs)} submit sites in compute_gamma")
     withs = [s for s in f.node.body if isinstance(s, ast.With)]
@@ -123,10 +133,14 @@ def run(ctx: Ctx):
     for c in sample_subs:
         comp = enclosing(f.node, c, (ast.ListComp, ast.For))
         inner = comp[-1] if comp else None
+        sample_expr = _sub_args(c)[2]
         fresh = inner is not None and (isinstance(inner, ast.ListComp) and inner.elt is c or
                                        isinstance(inner, ast.For) and any(c is x for b in inner.body for x in ast.walk(b)))
+        # the expression that draws the sample must itself be evaluated inside the iteration
+        fresh = fresh and any(sample_expr is x for x in ast.walk(inner.elt if isinstance(inner, ast.ListComp) else inner))
         ctx.check(fresh, "R-C05-2", f, c, "the sample is drawn inside the per-sample iteration: one fresh continuum per job",
-                  bad_detail="the sampled continuum is not evaluated once per job (hoisted / reused)", key=f"fresh-sample")
+                  bad_detail="sampler.sample_from_continuum is a property that draws on each access, but here it is evaluated once outside the per-sample iteration: "
+                             "every job of this batch aligns the same continuum", key=f"fresh-sample")
         if inner is not None:
             it = inner.generators[0].iter if isinstance(inner, ast.ListComp) else inner.iter
             pools.append((c, inner, it))
@@ -178,7 +192,9 @@ def run(ctx: Ctx):
         for t in ifs:
             if t.endswith("> n_samples"):
                 req = t[: -len(" > n_samples")]
-        ok2 = f"{prec} is not None" in ifs and req is not None and norm(P2[2]) == f"range({req} - n_samples)" and len(ifs) == 2
+        size = P2[2].args[0] if isinstance(P2[2], ast.Call) and dotted(P2[2].func) == "range" and len(P2[2].args) == 1 else None
+        size = resolve_local(f.node, size) if size is not None else None
+        ok2 = f"{prec} is not None" in ifs and req is not None and size is not None and norm(size) == f"{req} - n_samples" and len(ifs) == 2
         ctx.check(ok2, "R-C05-3", f, P2[1], "second batch exists only under a precision level and required > n_samples, with required - n_samples jobs",
                   bad_detail=f"second batch guards {ifs} / size `{norm(P2[2])}` deviate from (precision given, required > n_samples, required - n_samples)", key="second-batch")
         L2 = collected(P2)
